@@ -35,6 +35,9 @@ func runC08(c *mon.Ctx) {
 		"(2) 2..8 concurrent callers on one generator with an atomic scripted clock, porcupine (strictly increasing register) cross-checked by a pairwise real-time-order test. " +
 		"(3) a real mtproto.Conn with concurrent Invoke, Ping, ack and salt traffic on a clock that advances 0..3 ns (or coarsely) per reading; frames captured at the fake " +
 		"transport are decrypted by the reference model, de-duplicated by msg_id (identical retransmissions only), sorted by msg_id and the seq_no rule is replayed. " +
+		"(4) send-failure arm: sequential scripts of Invoke / Ping on a real Conn whose fake transport fails selected Send calls (first transmissions, and retransmissions " +
+		"provoked by withholding the answer and travelling the fake clock past RetryInterval) while the connection stays up; over every frame handed to Send, failed ones " +
+		"included (read by decrypting the bytes), ids must increase in generation order and seq_no must equal 2 x content messages generated before (+1 for content). " +
 		"distinct non-trivial = clock script x observed adopt/bump decision 5-grams; concurrent shape x step set; wire clock x adjacent message-type pairs in id order")
 	c.Assume("the time a msg_id encodes is read the way gotd/td defines it (MessageID.Time: seconds<<32 | nanoseconds)")
 	c.Assume("'close to the clock reading' = never behind the reading taken in the call and never more than one minimum-resolution bump ahead of max(reading, previous id)")
@@ -42,6 +45,7 @@ func runC08(c *mon.Ctx) {
 	c08Scripted(c)
 	c08Concurrent(c)
 	c08Wire(c)
+	c08WireFaults(c)
 	if c.DistinctCount() < 2 {
 		c.Inconclusive("fewer than 2 distinct non-trivial cases observed")
 	}
